@@ -790,9 +790,70 @@ void vf_harness(void)
 NS_MV = 3
 
 
+def unit_distance_rotation():
+    """the anisotropic distance of the moving neighbourhood is measured along the ROTATED axes whenever a rotation is given"""
+    BT = "src/Geometry/BiTargetCheckDistance.cpp"
+    pre = """
+#define TEST 1.234e30
+int nondet_int(); bool nondet_bool(); double nondet_double();
+#define NDM 3
+struct VectorDouble { double a[NDM * NDM]; int n;
+  VectorDouble() : n(0) {}
+  VectorDouble(const VectorDouble& r) : n(r.n) { for (int k = 0; k < NDM * NDM; k++) a[k] = r.a[k]; }
+  VectorDouble& operator=(const VectorDouble& r) { n = r.n; for (int k = 0; k < NDM * NDM; k++) a[k] = r.a[k]; return *this; }
+  bool empty() const { return n <= 0; } int size() const { return n; }
+  void resize(int m) { __CPROVER_assert(0 <= m && m <= NDM * NDM, "modelled capacity"); for (int k = 0; k < NDM * NDM; k++) if (k >= n && k < m) a[k] = 0.; n = m; }
+  void resize(int m, double v) { __CPROVER_assert(0 <= m && m <= NDM * NDM, "modelled capacity"); for (int k = 0; k < NDM * NDM; k++) if (k >= n && k < m) a[k] = v; n = m; }
+  double* data() { return a; } const double* data() const { return a; }
+  double& operator[](int i) { return a[i]; } double operator[](int i) const { return a[i]; } };
+int g_rot_built_from_angles, g_rot_identity, g_rotated, g_nprod;
+namespace VH { static bool isConstant(const VectorDouble& v, double val) { for (int k = 0; k < NDM * NDM; k++) if (k < v.n && v.a[k] != val) return false; return true; }
+               static void fill(VectorDouble& v, double val, int n) { v.resize(n); for (int k = 0; k < NDM * NDM; k++) if (k < n) v.a[k] = val; } }
+namespace GH { static void rotationMatrixInPlace(int ndim, const VectorDouble& angles, VectorDouble& rot) { g_rot_built_from_angles = 1; g_rot_identity = 0; }
+               static void rotationMatrixIdentityInPlace(int ndim, VectorDouble& rot) { g_rot_identity = 1; } }
+/* matrix_product_safe(1, ndim, ndim, incr, ROT, aux): the increment is turned into the rotated frame; (1, ndim, 1, incr, incr, &d): squared norm */
+const double* g_rotmat_ptr;
+static void matrix_product_safe(int n1, int n2, int n3, const double* a, const double* b, double* c) { g_nprod = g_nprod + 1; if (b == g_rotmat_ptr) g_rotated = 1; *c = 0.; }
+static double sqrt(double x) { return x; }
+struct ABiTargetCheck { ABiTargetCheck() {} };
+struct BiTargetCheckDistance : public ABiTargetCheck { int _ndim; bool _flagAniso, _flagRotation; double _radius; VectorDouble _anisoCoeffs, _anisoRotMat; mutable double _dist; mutable VectorDouble _movingIncr, _movingAux;
+  BiTargetCheckDistance(double radius, const VectorDouble& coeffs, const VectorDouble& angles);
+  int getNDim() const { return _ndim; }
+  void _calculateDistance() const; };
+"""
+    ctor = Fn("BiTargetCheckDistance::BiTargetCheckDistance", BT, r"^BiTargetCheckDistance::BiTargetCheckDistance\(double radius,\s*\n\s*const VectorDouble& coeffs,\s*\n\s*const VectorDouble& angles\)\s*\n\s*: ABiTargetCheck\(\),\s*\n(?:\s*_\w+\([^)]*\),?\s*\n)+")
+    calc = Fn("BiTargetCheckDistance::_calculateDistance", BT, r"^void BiTargetCheckDistance::_calculateDistance\(\) const\s*$")
+    h = """
+void vf_harness()
+{
+  VectorDouble coeffs, angles;
+  coeffs.n = nondet_int(); __CPROVER_assume(1 <= coeffs.n && coeffs.n <= NDM);
+  angles.n = nondet_int(); __CPROVER_assume(0 <= angles.n && angles.n <= NDM);
+  for (int k = 0; k < NDM; k++) { coeffs.a[k] = nondet_double(); __CPROVER_assume(coeffs.a[k] > 0. && coeffs.a[k] < 1.e6); angles.a[k] = nondet_double(); __CPROVER_assume(angles.a[k] > -360. && angles.a[k] < 360.); }
+  g_rot_built_from_angles = 0; g_rot_identity = 0; g_rotated = 0; g_nprod = 0;
+  BiTargetCheckDistance B(nondet_double(), coeffs, angles);
+  g_rotmat_ptr = B._anisoRotMat.data();
+  B._calculateDistance();
+  bool some_angle = false;
+  for (int k = 0; k < NDM; k++) if (k < angles.n && k < coeffs.n && angles.a[k] != 0.) some_angle = true;
+  __CPROVER_assert(g_rotated == (some_angle ? 1 : 0), "the increment is turned into the rotated frame before the anisotropic scaling exactly when one of the rotation angles is not zero (whichever it is)");
+  __CPROVER_assert(!some_angle || g_rot_built_from_angles, "the rotation matrix in use was built from the angles given");
+  VF_REACH();
+}
+"""
+    return Unit("C06.BiTargetCheckDistance.rotation", [ctor, calc], mode="cpp", prelude=pre, harness=h, unwind=NDM_U + 2, checks=[], backends=("minisat", "cadical"), timeout=300,
+                bounded="space dimension <= 3 (unwinding assertions)",
+                claim=("BiTargetCheckDistance (the anisotropic distance test of the moving neighbourhood; real constructor and real _calculateDistance): whenever one of the rotation angles given "
+                       "is not zero — whichever — the increment is turned into the rotated frame before the anisotropic scaling, with the matrix built from those angles; never otherwise"),
+                assumptions=["Route X: vectors / rotation matrices are ghosts; GH::rotationMatrixInPlace and matrix_product_safe record that they were called (numerical content: C16 rotation units)"],
+                canaries=[{"fn": "BiTargetCheckDistance::_calculateDistance", "rx": r"if \(_flagRotation\)", "rp": "if (_flagRotation && !_flagAniso)", "expect": r"assertion"}])
+
+NDM_U = 9
+
+
 def units(tier):
     nmax = int(__import__("os").environ.get("VF_NMAX", 0)) or (6 if tier == "quick" else 10)
-    return [unit_nheap_push(nmax), unit_sort_order(nmax), unit_sort_multiset(min(nmax, 8)), unit_sector_nsmax(nmax, 3), unit_moving_select(nmax, 3), unit_sector_define(), unit_sector_sampled(), unit_moving_candidates()]
+    return [unit_nheap_push(nmax), unit_sort_order(nmax), unit_sort_multiset(min(nmax, 8)), unit_sector_nsmax(nmax, 3), unit_moving_select(nmax, 3), unit_sector_define(), unit_sector_sampled(), unit_moving_candidates(), unit_distance_rotation()]
 
 
 META = {
